@@ -41,6 +41,10 @@ func AuxSyscalls(args []string) int {
 				return 2
 			}
 		}
+		if err := applyShape(h, filepath.Dir(dir), dir); err != nil {
+			fmt.Fprintln(os.Stderr, "pre-state shape failed:", err)
+			return 2
+		}
 		_, _ = os.Stat(markBegin)
 		r := doStore(dir, docVariant(h.Last.Doc, h.Last.ID), h.Last.NoClobber)
 		_, _ = os.Stat(markEnd)
